@@ -521,7 +521,10 @@ func (g *Gen) cond(sc scope) string {
 
 var noSpaceText = "https://example.org/assets/" + strings.Repeat("0123456789abcdef", 6) + ".min.js"
 
-var textBits = []string{noSpaceText, "a", "hello", " ", "  ", "\n", "\n\n", " \t", "x ", " y", "<p>", "</p>", "é", "日本", ", ", ".", "line\n", "\n  indented", "0", "{", "}", "%"}
+// hugeText: one output chunk well above any plausible buffer threshold (4 kB, 8 kB)
+var hugeText = strings.Repeat("0123456789abcdef", 600) + "!"
+
+var textBits = []string{noSpaceText, hugeText, "a", "hello", " ", "  ", "\n", "\n\n", " \t", "x ", " y", "<p>", "</p>", "é", "日本", ", ", ".", "line\n", "\n  indented", "0", "{", "}", "%"}
 
 func (g *Gen) text() *TNode {
 	var sb strings.Builder
@@ -726,6 +729,9 @@ func (g *Gen) node(sc *scope, depth int) *TNode {
 	case 14:
 		if g.r.Chance(0.3) {
 			g.use("tag:expand") // custom tag that uses Context.ExpandTagArg
+			if g.feat["errors"] && g.r.Chance(0.2) {
+				return &TNode{K: "tag", S: "expand a{{ s | }}b"} // the argument itself does not compile
+			}
 			return g.trim(&TNode{K: "tag", S: "expand " + pick(g.r, []string{"a", "x-", ""}) + "{{ " + g.scalarExpr(*sc) + " }}" + pick(g.r, []string{"", "-b", " c"})})
 		}
 		if g.r.Chance(0.25) {
@@ -852,7 +858,8 @@ func inFilts(l []filt, name string) bool {
 func (g *Gen) Sweep(e *Env, focus []filt, n int) []*TNode {
 	g.env = e
 	sc := scopeOf(e)
-	var out []*TNode
+	var out, tail []*TNode
+	deferred := g.r.Chance(0.5)
 	for i := 0; i < n; i++ {
 		f := pick(g.r, focus)
 		var atom string
@@ -868,9 +875,16 @@ func (g *Gen) Sweep(e *Env, focus []filt, n int) []*TNode {
 		expr := atom + " | " + f.name + f.args(g, sc)
 		g.hint = -1
 		g.use("filter:" + f.name)
+		if deferred {
+			// results are kept and printed only after every application has run (one result
+			// must not change because the filter was applied again to the same input)
+			out = append(out, &TNode{K: "tag", S: fmt.Sprintf("assign r%d = %s", i, expr)})
+			tail = append(tail, &TNode{K: "obj", S: fmt.Sprintf("r%d | json", i)}, &TNode{K: "text", S: "|"})
+			continue
+		}
 		out = append(out, &TNode{K: "obj", S: expr}, &TNode{K: "text", S: "|"})
 	}
-	return out
+	return append(out, tail...)
 }
 
 // Template generates one template tree.
